@@ -17,24 +17,18 @@ type DateTime struct {
 var _ objecttypes.Value = DateTime{}
 
 func MapDateTime(lexicalForm string) (DateTime, error) {
-	lexicalForm = xsdutil.WhiteSpaceCollapse(lexicalForm)
-
-	for _, layout := range []string{
-		"2006-01-02T15:04:05",
-		"2006-01-02T15:04:05Z07:00",
-		"2006-01-02T15:04:05.000000000",
-		"2006-01-02T15:04:05.000000000Z07:00",
-	} {
-		parsed, err := time.Parse(layout, lexicalForm)
-		if err == nil {
-			return DateTime{
-				Time:   parsed,
-				Layout: layout,
-			}, nil
-		}
+	parsed, layout, ok := parseTimeLexicalForm(xsdutil.WhiteSpaceCollapse(lexicalForm), dateTimeLexicalRE,
+		"2006-01-02T15:04:05.999999999",
+		"2006-01-02T15:04:05.999999999Z07:00",
+	)
+	if !ok {
+		return DateTime{}, rdf.ErrLiteralLexicalFormNotValid
 	}
 
-	return DateTime{}, rdf.ErrLiteralLexicalFormNotValid
+	return DateTime{
+		Time:   parsed,
+		Layout: layout,
+	}, nil
 }
 
 func (v DateTime) AsObjectValue() rdf.ObjectValue {
